@@ -35,17 +35,17 @@ theorem C13_liquidate_never_raises_debt_exceeds_shrink (hR : AaveRisk.RndShrink 
   exact ⟨key, fun he => key (by rw [he]; rfl)⟩
 
 /-- the Aave context with the guarded 35-digit rounding; `dpow` (used by the interest accrual only) is a parameter -/
-def aavePyG (dpow : Rat → Nat → Rat) : ACtx := { NumCtx.pyG with dpow := dpow }
+def aavePyGWith (dpow : Rat → Nat → Rat) : ACtx := { NumCtx.pyG with dpow := dpow }
 
 /-- **35-digit rounding**: with every arithmetic operation rounded to 35 significant digits (`NumCtx.pyG`), `update()` on an
     open market, in a coherent state without negative debt entries, raises no `DemeterError` — the debt check of `_do_liquidate`
     never fires. -/
 theorem C13_liquidate_never_raises_debt_exceeds_round35 (dpow : Rat → Nat → Rat) (hE : EnvOK env) (hP : EnvPos env)
-    {s : St} (hs : Good (aavePyG dpow) env s) (hopen : env.isOpen = true) (hd : AaveRisk.DebtsNonneg (proj env s)) (e : Err)
-    (h : (liquidate (aavePyG dpow) env s).1 = .error e) : e.cls ≠ "DemeterError" ∧ e ≠ .liqDebtExceeds :=
-  C13_liquidate_never_raises_debt_exceeds_shrink (cx := aavePyG dpow) AaveRisk.rndShrink_pyG hE hP hs hopen hd e h
+    {s : St} (hs : Good (aavePyGWith dpow) env s) (hopen : env.isOpen = true) (hd : AaveRisk.DebtsNonneg (proj env s)) (e : Err)
+    (h : (liquidate (aavePyGWith dpow) env s).1 = .error e) : e.cls ≠ "DemeterError" ∧ e ≠ .liqDebtExceeds :=
+  C13_liquidate_never_raises_debt_exceeds_shrink (cx := aavePyGWith dpow) AaveRisk.rndShrink_pyG hE hP hs hopen hd e h
 
 /-! ### non-vacuity -/
-example (dpow : Rat → Nat → Rat) : AaveRisk.RndShrink (aavePyG dpow).toNumCtx := AaveRisk.rndShrink_pyG
+example (dpow : Rat → Nat → Rat) : AaveRisk.RndShrink (aavePyGWith dpow).toNumCtx := AaveRisk.rndShrink_pyG
 
 end Demeter
